@@ -110,6 +110,99 @@ def oracle(heap, objs, root, cfg, text, ws, ref_obj, ref_text):
     later, lw = G.run_impl(ref_obj, {})
     if later != ref_text or lw:
         return 'a later fault-free print is affected: %r' % later[:200]
+    if escapes or failing:
+        # the SAME objects, faults removed, printed after the failed / aborted call: as a first call
+        saved = [(o, o.fault) for o in objs if isinstance(o, G.GObj)]
+        try:
+            for o, _f in saved:
+                o.fault = 'none'
+            again, aw = G.run_impl(objs[root], cfg)
+            fresh, _fw = G.run_impl(G.unfold(objs[root], [], []), cfg)
+        finally:
+            for o, f in saved:
+                o.fault = f
+        if again != fresh or aw:
+            return 'the same objects printed after the failed call differ from a first print:\n%s\n--- expected ---\n%s' % (
+                again[:400], fresh[:400])
+    return None
+
+
+NOSUPPORT = 'does not support rendering trailing comments'
+WRAPS = ('trailing', 'comment', 'both', 'trailing-trailing')
+SHAPES = ('top', 'list', 'tuple', 'dictval', 'dictkey', 'callarg', 'deep')
+
+
+def wrapped_spec_cases():
+    """a failing value wrapped in comment() / trailing_comment(): the (value, ctx) printer is first
+    tried with the trailing comment, then retried without it - the retry must be contained too"""
+    out = []
+    for fault in ('raise', 'after'):
+        for exc in sorted(G.EXC_CLASSES):
+            for wrap in WRAPS:
+                for shape in SHAPES:
+                    out.append({'fault': fault, 'exc': exc, 'wrap': wrap, 'shape': shape})
+    return out
+
+
+def wrapped_build(spec, reference):
+    """-> the value to print; with [reference] the failing object is replaced by its repr marker and
+    the trailing comment (which its printer cannot render) removed"""
+    from prettyprinter import comment, trailing_comment
+    G.ensure_registered()
+    bad = G.GObj('make', 7, spec['fault'], spec['exc'])
+    bad.args = [1, 'x']
+    if reference:
+        core = G.Marker(G.safe_repr(BAD_REPR[0]))
+        w = comment(core, 'note here') if spec['wrap'] in ('comment', 'both') else core
+    else:
+        BAD_REPR[0] = bad
+        w = bad
+        if spec['wrap'] in ('trailing', 'both', 'trailing-trailing'):
+            w = trailing_comment(w, 'tail words')
+        if spec['wrap'] == 'trailing-trailing':
+            w = trailing_comment(w, 'second tail')
+        if spec['wrap'] in ('comment', 'both'):
+            w = comment(w, 'note here')
+    ok = G.GObj('Thing', 8)
+    ok.args = [2]
+    shape = spec['shape']
+    if shape == 'top':
+        return w
+    if shape == 'list':
+        return [1, w, 'after', ok]
+    if shape == 'tuple':
+        return (w,)
+    if shape == 'dictval':
+        return {'before': [1, 2], 'here': w, 'after': ok}
+    if shape == 'dictkey':
+        return {w: 1, 'other': 2}
+    if shape == 'callarg':
+        outer = G.GObj('Thing', 9)
+        outer.args = [w, 3]
+        return [outer]
+    return {'a': [[(w, 1)], ok]}
+
+
+BAD_REPR = [None]
+
+
+def wrapped_oracle(spec, cfg):
+    text, ws = G.run_impl(wrapped_build(spec, False), cfg)
+    want, ww = G.run_impl(wrapped_build(spec, True), cfg)
+    if text.startswith('EXC'):
+        return 'pformat raised %s although the failure is contained' % text
+    if text != want:
+        return 'output differs from the print in which exactly the failing value is its repr:\n%s\n--- expected ---\n%s' % (
+            text[:400], want[:400])
+    bad = [m for m in ws if 'raised an exception' in m]
+    # one warning per invocation of the failing printer (a commented dict value is rendered twice)
+    if not bad or any('gobj_printer' not in m or 'boom-7' not in m or 'Falling back to default repr' not in m
+                      for m in bad):
+        return 'expected repr-fallback warnings naming the failing printer and its exception, got %r' % (
+            [m[:120] for m in ws],)
+    rest = [m for m in ws if 'raised an exception' not in m and NOSUPPORT not in m]
+    if rest:
+        return 'unexpected warning %r' % rest[0][:160]
     return None
 
 
@@ -162,6 +255,17 @@ def main(tier):
             msg = oracle(heap, objs, root, cfg, text, ws, ref_obj, ref_text)
             if msg and len(run.violations) < 3:
                 run.violation({'kind': 'oracle', 'detail': msg, 'heap': heap, 'root': root, 'cfg': cfg})
+        # failing values under comment wrappers (oracle only; the graph model has no comment nodes)
+        r2 = rng(PROP + '/wrapped')
+        nwrap = 0
+        for spec in wrapped_spec_cases():
+            cfg = dict(width=r2.choice([10, 40, 79]))
+            nwrap += 1
+            run.count(1)
+            msg = wrapped_oracle(spec, cfg)
+            if msg and len(run.violations) < 6:
+                run.violation({'kind': 'wrapped', 'detail': msg, 'spec': spec, 'cfg': cfg})
+        run.coverage['wrapped_fault_cases'] = nwrap
         if dis:
             run.broken.append('correspondence: graph level with failing printers (text and warnings), %d disagreements' % dis)
         run.coverage['disagreements_checked'] = dis
@@ -176,7 +280,10 @@ def main(tier):
             'Compared with the model: text and the sequence of warnings. Oracle (reference traversal independent of the '
             'package): the text equals the print in which exactly the failing values are their repr, one "raised an '
             'exception ... Falling back to default repr" warning per failing printer in order, ValueError for a '
-            'top-level non-document, and a later fault-free print is unaffected. non-trivial = cases with >= 1 warning')
+            'top-level non-document, and a later fault-free print is unaffected. Also (oracle only, not in the model): a '
+            'failing value wrapped in trailing_comment() / comment() / both / two trailing comments, at top level, in a '
+            'list, 1-tuple, dict value, dict key, call argument, nested - the retry without the trailing comment is '
+            'contained at the value as well. non-trivial = cases with >= 1 warning')
         for k in (0, len(cases) // 2, len(cases) - 1):
             run.sample({'heap': cases[k][0], 'root': cases[k][1], 'cfg': cases[k][2], 'impl': impl[k][0][:300]})
     return run.finish()
@@ -186,6 +293,10 @@ def replay(path):
     import c13
     with open(path) as f:
         p = json.load(f)
+    if p.get('kind') == 'wrapped':
+        msg = wrapped_oracle(p['spec'], p['cfg'])
+        print('oracle:', msg)
+        return 1 if msg else 0
     if 'heap' not in p:
         print(json.dumps(p, indent=1)[:3000])
         return 1
